@@ -122,6 +122,35 @@ class C04(Check):
                 a, b = m0["data_start"], m1["data_start"]
                 d[a:a + n], d[b:b + n] = data[b:b + n], data[a:a + n]
                 add(bytes(d), 0, "swap"); add(bytes(d), 1, "swap")
+            # extraction is a read to end-of-file too: extract() (seekable, and streaming where the stream can walk the
+            # archive) on damaged archives must fail, or every file it leaves must hash to the CRC its entry declares
+            if pw is None:
+                def addx(d, kind):
+                    for mode in ((0, 1) if sname != "dd" else (0,)):
+                        decl = {}
+                        for m_ in man["entries"]:
+                            o_ = m_["central_start"] + 16 if mode == 0 else m_["header_start"] + 14
+                            decl[m_["name_raw"] if isinstance(m_["name_raw"], str) else m_["name_raw"].hex()] = int.from_bytes(d[o_:o_ + 4], "little")
+                        cases.append(("extract %s %d" % (hexs(d), mode), dict(kind="extract-" + kind, seed=sname, decl=decl, damaged=(kind != "intact"), impl_only=True)))
+                addx(data, "intact")
+                for idx, m in enumerate(man["entries"]):
+                    ds, de = m["data_start"], m["data_start"] + m["csize"]
+                    spots = list(range(ds, de)) + list(range(m["central_start"] + 16, m["central_start"] + 20)) + list(range(m["header_start"] + 14, m["header_start"] + 18))
+                    for p_ in (spots if len(spots) <= 16 or self.tier == "thorough" else r.sample(spots, 16)):
+                        d = bytearray(data); d[p_] ^= 1 << r.randrange(8)
+                        addx(bytes(d), "bitflip@%d" % p_)
+                    for val in (1, 0xffffffff, m["crc"] ^ 1):
+                        d = bytearray(data)
+                        d[m["central_start"] + 16:m["central_start"] + 20] = val.to_bytes(4, "little")
+                        d[m["header_start"] + 14:m["header_start"] + 18] = val.to_bytes(4, "little")
+                        addx(bytes(d), "crc=%08x" % val)
+                if len(man["entries"]) == 2:
+                    m0, m1 = man["entries"]
+                    d = bytearray(data)
+                    n = min(m0["csize"], m1["csize"])
+                    a, b = m0["data_start"], m1["data_start"]
+                    d[a:a + n], d[b:b + n] = data[b:b + n], data[a:a + n]
+                    addx(bytes(d), "swap")
             if pw is None and sname != "dd":
                 for b in bufs:
                     cases.append(("stream_all %s %d" % (hexs(data), b), dict(kind="stream-intact", seed=sname, impl_only=True)))
@@ -141,6 +170,18 @@ class C04(Check):
             if meta.get("seed") in ("ae1", "ae2") and "PArithSub" in (out or ""):
                 return None       # D4 belongs to C05/C16
             return "implementation did not return: %s" % (out or "")[:120]
+        if line.startswith("extract"):
+            ok = out.startswith("[Ok ")
+            if not meta["damaged"] and not ok:
+                return "extract() of an intact archive failed: " + out[:100]
+            if ok:
+                for mm in re.finditer(r"\[x([0-9a-f]*) F \d+ x([0-9a-f]*)\]", out):
+                    rel = bytes.fromhex(mm.group(1))
+                    if rel.startswith(b"t/") and rel[2:].hex() in meta["decl"]:
+                        got = binascii.crc32(bytes.fromhex(mm.group(2))) & 0xffffffff
+                        if got != meta["decl"][rel[2:].hex()]:
+                            return "extract() succeeded and left %r with CRC-32 %08x, its entry declares %08x" % (rel, got, meta["decl"][rel[2:].hex()])
+            return None
         if line.startswith("stream_all"):
             for m in re.finditer(r"\[x[0-9a-f]* (\d+) \[Ok x([0-9a-f]*)\]\]", out):
                 if binascii.crc32(bytes.fromhex(m.group(2))) & 0xffffffff != int(m.group(1)):
